@@ -680,7 +680,11 @@ impl Database {
             .wrap_err("failed to seek to start of metadata file")?;
         file.write_all(&page)
             .wrap_err("failed to write metadata header")?;
+        #[cfg(kahflane_turdb_verif)]
+        crate::verif_hooks::io_event(8, &meta_path, 0, page.len() as u64);
         file.sync_all().wrap_err("failed to sync metadata file")?;
+        #[cfg(kahflane_turdb_verif)]
+        crate::verif_hooks::io_event(2, &meta_path, 0, 0);
 
         Ok(())
     }
